@@ -162,6 +162,7 @@ func checkC07(p *Prog, r *Report) {
 	ruleExitsAudited(p, r, "R-X", "C07", map[string]bool{"cisco": true, "asa": true, "ios": true}, 16)
 	ruleMemo(p, r, "R-MEMO", "C07", map[string]bool{"cisco": true, "asa": true, "ios": true}, 6)
 	ruleRegexpConsts(p, r, "R-RX", "C07", 1)
+	ruleMapsCopy(p, r, "R-MC")
 	ruleNSXLoadFilter(p, r)
 	rulePanosXPathScope(p, r)
 	r.rule("R07.5", "Protection sites of the Cisco planner keep exactly their audited controlling conditions (tables/guards.tsv): marking of objects behind unknown interfaces / unmanaged VRFs as needed; deletion candidates = not needed and (marked toDelete or generated name); the walk that protects everything an unmanaged object still references; deletion only when nothing to be deleted later references the object; no change for aaa-server, ldap attribute-map, interface; routes deleted only where the target specifies routes. Guard sets are computed from go/ssa (all If edges dominating the site, normalised) and compared as multisets.")
